@@ -83,6 +83,9 @@ void h_send(void)
     for (i = 0; i < 12; i++) V_ASSUME(in_arg0.s[i] != '\n' && in_arg1.s[i] != '\n');
     for (i = 0; i < IRC_NTOP_MAX; i++) V_ASSUME(req->text_addr[i] != '\n' && req->text_addr[i] != ' ');
     V_ASSUME(req->text_addr[0] != '\0');
+#ifdef ADDR_MAX
+    for (i = ADDR_MAX; i < IRC_NTOP_MAX; i++) req->text_addr[i] = '\0';     /* bounded stand-in: address text of <= ADDR_MAX bytes */
+#endif
     f = F;
     g_out_len = 0;
 #if KIND == 14
